@@ -735,7 +735,7 @@ func migrateRuleSet(lang i18n.Language, r RuleSet, validDests map[uuids.UUID]boo
 
 			// check if we already have a configuration for this currency
 			existingAmount, alreadyDefined := currencyAmounts[countryCfg.CurrencyCode]
-			if alreadyDefined && existingAmount != countryCfg.Amount {
+			if alreadyDefined && !existingAmount.Equal(countryCfg.Amount) {
 				return nil, "", nil, fmt.Errorf("unable to migrate airtime ruleset with different amounts in same currency")
 			}
 
